@@ -475,6 +475,15 @@ pub trait BackendTransaction {
                     let (inter, fp) = self.filter2idl(f_in, thres)?;
                     // It's an and not, so we need to wrap the plan accordingly.
                     plan.push(FilterPlan::AndNot(Box::new(fp)));
+                    // Only a fully indexed set can be subtracted. A partial set is a superset of
+                    // the entries that match the inner filter, so subtracting it would drop entries
+                    // that must be returned. Subtract nothing, and keep the partial state so that
+                    // the entry filter test decides.
+                    let inter = match inter {
+                        IdList::Partial(_) => IdList::Partial(IDLBitRange::new()),
+                        IdList::PartialThreshold(_) => IdList::PartialThreshold(IDLBitRange::new()),
+                        inter => inter,
+                    };
                     cand_idl = match (cand_idl, inter) {
                         (IdList::Indexed(ia), IdList::Indexed(ib)) => {
                             let r = ia.andnot(ib);
